@@ -34,7 +34,9 @@ class C17(Property):
         "linear_identity; dispatch_bspline / dispatch_perfect_not_three / dispatch_perfect_three / arc_refused_collinear / "
         "arc_refused_large (collinear or >=1000 sub-points => Bezier fallback; perfect with != 3 points => Bezier); arc_point_count; "
         "segment_ends_at_last and piece_starts_at_first for the Bezier flattening; joint_dedup / joint_dedup_first "
-        "(rotate_left(1)+pop removes exactly the duplicated joint vertex). "
+        "(rotate_left(1)+pop removes exactly the duplicated joint vertex); thetaLoop_fuel (one round of the angle loop suffices when theta_end+2pi is not "
+        "below theta_start); over exact rational arithmetic catmull_points_on_spline (catmull_subpath emits the uniform Catmull-Rom polynomial, standard "
+        "basis form, at t=c/50 and (c+1)/50 for c=0..49; by ring) and catmullRom_endpoints. "
         "The tolerance bounds themselves (Hausdorff distance of the adaptive Bezier flattening with its smoothing step, arc sagitta, "
         "Catmull chord error) are NOT proved (bezier_within_tolerance_statement is only stated); they are tested: the real code's path is "
         "compared with independently evaluated exact curves (De Casteljau, circle through three points, Catmull-Rom polynomial, polyline) "
@@ -42,13 +44,15 @@ class C17(Property):
     technique = "Lean 4 proof of the structural part + bit-exact differential correspondence + independent exact-curve oracle (test)"
     required_theorems = ["linear_identity", "dispatch_bspline", "dispatch_perfect_not_three", "dispatch_perfect_three",
                          "arc_refused_collinear", "arc_refused_large", "arc_point_count", "segment_ends_at_last",
-                         "piece_starts_at_first", "joint_dedup", "joint_dedup_first"]
+                         "piece_starts_at_first", "joint_dedup", "joint_dedup_first", "catmull_points_on_spline", "catmullRom_endpoints",
+                         "thetaLoop_fuel"]
     partial_theorems = {
         "bezier_within_tolerance_statement": "NOT proved (stated as a def): Hausdorff bound of adaptive Bezier flattening + final smoothing; evidence = oracle with bound 0.5 (2 x BEZIER_TOLERANCE) + float slack, both directions",
         "arc_sagitta_bound / arc_points_on_circle": "not proved (needs cos^2+sin^2, atan2 laws); oracle: vertices on the circle within float slack, circle within 0.1 + slack of the path",
         "catmull chord error": "not proved; oracle bound max|B''|/(8*50^2) per span (+6 px in osu! mode, the simplification threshold)",
         "segment_starts_at_first": "proved per flat piece (piece_starts_at_first); that the first piece's parent still starts with the segment's first control point after subdivisions is not proved (tested: path[0] = first control point)",
-        "catmull_points_on_spline": "NOT proved in Lean (the emitted points are the Catmull-Rom polynomial at t = c/50 by definition of catmullPoint; the identification with the standard basis form is a ring identity left to the oracle, which evaluates the polynomial independently in f64)",
+        "catmull_points_on_spline": "exact rational arithmetic only (Scalar instance on core Rat, ring); in f32 the polynomial is evaluated with rounding - covered by the bit-exact correspondence and the oracle's independent f64 evaluation",
+        "thetaLoop_fuel": "the hypothesis (theta_end + 2pi >= theta_start) is a property of atan2 (range [-pi, pi]), not proved of libm; the driver reports fuel-exhausted distinctly and never did",
     }
     trusted_base = [
         "Lean 4.33.0 kernel",
